@@ -28,7 +28,8 @@ Print Assumptions C14_strict.
 (* the same across ClusterInfo.Sync calls: the hypothesis is "no server added or removed and no disabled
    flag changed in the window", NOT "no Sync in the window" — a Sync of an identical object, or one that only
    edits flow control / logging / other policies, keeps every cursor (syncEndpoints resets the
-   loadbalancer map only when a server is added or deleted) *)
+   loadbalancer map only when a server is added or deleted); a status write that records the health an endpoint
+   already has is a window op too *)
 Theorem C14_strict_sync : forall s ups ops e,
   let rd := filter (is_ok s) ups in
   let k := Z.of_nat (List.length rd) in
@@ -131,7 +132,7 @@ Proof.
   intros s sy ops. split; [|vm_compute; reflexivity].
   assert (P : window_op s [0; 1; 2] (OPick [0; 1; 2])) by (left; reflexivity).
   assert (Q : window_op s [0; 1; 2] sy).
-  { right. exists [3; 2; 1; 0], [3]. split; [reflexivity|]. split; [reflexivity|]. intros e; reflexivity. }
+  { right. left. exists [3; 2; 1; 0], [3]. split; [reflexivity|]. split; [reflexivity|]. intros e; reflexivity. }
   unfold ops. repeat (apply Forall_cons; [first [exact P | exact Q]|]). apply Forall_nil.
 Qed.
 
@@ -154,3 +155,30 @@ Example C14_request_level_nonvacuous :
   map qres_code (qrun [0; 1] (fun _ => true) {| qcur := []; qzero := false |} ops) = [1; 0; -2; -3; -3; -2; 1; 0]
   /\ nfwd false ops = 4%nat.
 Proof. vm_compute. split; reflexivity. Qed.
+
+(* status writes that change neither `healthy` nor `disabled` (the health checker recording an unchanged
+   result) and Syncs that add / remove no server are invisible to the picks: the picks of such a window are
+   the plain round-robin sequence, the same as if those ops were not there *)
+Theorem C14_idempotent_status_write_invisible : forall s ups ops,
+  Forall (window_op s ups) ops ->
+  pickres ops (crun s ops) = snd (pops (curs s) (repeat ups (npicks ops)) (is_ok s)) /\
+  pickres ops (crun s ops) = pickres (filter is_pick ops) (crun s (filter is_pick ops)).
+Proof. exact idempotent_status_write_invisible. Qed.
+Print Assumptions C14_idempotent_status_write_invisible.
+
+(* k = 2, a "healthy" recorded for an already healthy endpoint before every pick: still 1, 0, 1, 0 *)
+Example C14_idempotent_write_nonvacuous :
+  let s := {| servers := [0; 1]; readyset := [0; 1]; disabled := []; curs := [] |} in
+  let ops := [OReady 1 true; OPick [0; 1]; OReady 0 true; OPick [0; 1]; OReady 1 true; OPick [0; 1];
+              OReady 7 false; OPick [0; 1]] in
+  Forall (window_op s [0; 1]) ops /\ map pres_code (pickres ops (crun s ops)) = [1; 0; 1; 0].
+Proof.
+  intros s ops. split; [|vm_compute; reflexivity].
+  assert (P : window_op s [0; 1] (OPick [0; 1])) by (left; reflexivity).
+  assert (Q : forall e, window_op s [0; 1] (OReady e (zin e (readyset s)))) by (intros e; right; right; exists e; reflexivity).
+  unfold ops.
+  apply Forall_cons; [exact (Q 1)|]. apply Forall_cons; [exact P|].
+  apply Forall_cons; [exact (Q 0)|]. apply Forall_cons; [exact P|].
+  apply Forall_cons; [exact (Q 1)|]. apply Forall_cons; [exact P|].
+  apply Forall_cons; [exact (Q 7)|]. apply Forall_cons; [exact P|]. apply Forall_nil.
+Qed.
